@@ -1,13 +1,15 @@
 """C06 — injected faults act exactly during their windows and isolate only their target.
 
-1. TLC model checking of specs/faults/FaultsMC.tla: every schedule of up to MaxW windows per mode (all
-   overlap / nesting / adjacency shapes, both creation orders, cancel modes) with the derived workload; the
-   contract invariants hold for Dev = {} and each deviation alone is caught.
-2. spec -> code: the schedules TLC enumerated (its initial states) are built as real FaultSchedules +
-   workloads on a real Simulation / Network / Resource / QueuedResource and run.
+1. TLC model checking of specs/faults/FaultsMC.tla (one run per tier): every schedule of up to maxw windows per
+   window space (all overlap / nesting / adjacency shapes, both creation orders, cancel modes) with the derived
+   workload; the contract invariants hold on all runs with dev = {} and each deviation alone breaks its clause
+   (Report action of the same run).  Runs in the background while 2-4 happen.
+2. spec -> code: the schedules TLC enumerated (initial states of FaultsMC) are built as real FaultSchedules +
+   workloads on a real Simulation / Network / Resource / QueuedResource and run (c06_world.py).
 3. code -> spec: those executions plus seeded random schedules beyond the bounds are judged by
-   specs/faults/FaultsTrace.tla: contract on the observed logs (PROP keys), model conformance (MODEL drift).
-4. keys of known findings print KNOWN-FINDING, any other key is a VIOLATION.
+   FaultsJudge.tla (contract on the observed logs -> keys) and FaultsTrace.tla (the machine with the code's
+   deviations must reproduce the observed logs; a difference is drift).
+4. keys of open known findings print KNOWN-FINDING, any other key is a VIOLATION (replay file saved).
 """
 from __future__ import annotations
 
@@ -40,7 +42,8 @@ DEVIATIONS = {
     "cancel_before_start_ineffective": set(INVS),
 }
 
-# contract key (what fails, computed by FaultsTrace.tla) -> deviation of the model that produces it
+# contract key (what fails, computed by FaultsKeys.tla) -> deviation of the model that produces it
+# (documentation of known_findings.json entries; the verdict itself only looks at the key)
 KEY_DEV = {
     "process_advances_while_crashed": "continuation_ignores_crash",
     "handler_runs_after_overlapping_window_end": "bool_flag_not_refcount",
